@@ -55,16 +55,21 @@ def gen_callspec(rng):
     return f"C{size}:{alog}:{roff}:{nl}:{no}:{rl}:{st}:{cx}"
 
 
-def gen_subtask_script(rng, mode, maxcalls, maxbody, stats=None):
+def gen_subtask_script(rng, mode, maxcalls, maxbody, stats=None, tasks=False):
     """Body over {c,p,a,d,w,y} and host directives {A,D} for 1..maxcalls import calls.
     Mostly sensible (create before use, advance before deliver) with a tail of arbitrary orders;
-    the harness and the model define every order (skips), so nothing generated is invalid."""
+    the harness and the model define every order (skips), so nothing generated is invalid.
+    `tasks`: in the cabi modes also switch the current harness task (`t1`/`t2`)."""
     ncalls = rng.randint(1, maxcalls)
     specs = [gen_callspec(rng) for _ in range(ncalls)]
     body, created = [], []
     n = rng.randint(1, maxbody)
     wprob = 0.08 if mode == "export" else 0.20
+    tprob = 0.12 if tasks and mode != "export" else 0.0
     for _ in range(n):
+        if tprob and rng.random() < tprob:
+            body.append(f"t{rng.choice([1, 2])}")      # the body moves to the other harness task (C18)
+            continue
         r = rng.random()
         if (r < 0.3 and len(created) < ncalls) or not created:
             k = len(created) if rng.random() < 0.9 else rng.randrange(ncalls)
@@ -83,7 +88,7 @@ def gen_subtask_script(rng, mode, maxcalls, maxbody, stats=None):
     host = []
     m = rng.randint(0, 2 * maxbody)
     for _ in range(m):
-        k = rng.choice(created) if rng.random() < 0.95 else rng.randrange(ncalls)
+        k = rng.choice(created) if created and rng.random() < 0.95 else rng.randrange(ncalls)
         r = rng.random()
         if r < 0.5:
             host.append(f"A{k}:{rng.choice([1, 1, 2, 2, 2, 0, 3, 4])}")
